@@ -26,7 +26,7 @@ pub fn op_line(text: &str, start: usize, end: usize) -> String {
     format!("listing ({}) ({}) {} {}", cps.join(" "), ws.join(" "), start, end)
 }
 
-fn answer(r: &Result<String, String>) -> String {
+pub fn answer(r: &Result<String, String>) -> String {
     match r {
         Ok(s) => {
             let mut a = "ok".to_owned();
